@@ -388,6 +388,24 @@ Fixpoint listing_nodes (l : list lent) : option (list node) :=
   | (LJunk | LFail) :: _ => None
   end.
 
+(* a provider life on a SCRIPTED key space (start-up, re-watch, re-listing, shutdown): what other
+   nodes do to the key space ... *)
+Inductive mut := MPut (n : node) | MDel (k : Z).   (* PUT key=.../(nid n) value=json(n) / DELETE key=.../k *)
+
+(* ... and the schedule: when the server evaluates a request and when a response reaches the provider.
+   An action that is not possible in the current situation is a no-op. *)
+Inductive act :=
+| AMut (m : mut)        (* the key space moves on by one revision *)
+| AGetEval              (* the pending prefix Get is evaluated: snapshot + revision *)
+| AGetResp              (* that response reaches the provider *)
+| AGetFail              (* the pending Get fails instead *)
+| AWatch                (* the server registers the pending Watch request: it starts at the requested revision,
+                           without one right after the CURRENT revision; compacted start -> error response *)
+| ADeliver (n : Z)      (* the next (at most n) pending events of the open watch arrive as one response *)
+| AWatchFail (v : Z)    (* the open watch stream ends: 0 closed, otherwise a cancel response *)
+| ACompact              (* the server compacts its history up to the current revision *)
+| AShutdown.            (* Provider.Shutdown; the open stream stays deliverable (events in flight) *)
+
 Inductive op :=
 | OStart (self : node) (listing : list lent)  (* StartMember: init, fetchNodes, updateNodesWithSelf, publish,
                                                  startWatching, registerService, startKeepAlive *)
@@ -400,7 +418,10 @@ Inductive op :=
 | OQuery                                       (* the package-level getters of node/app/utils.go *)
 | ONode (n : node)                             (* etcd.Node round trip *)
 | OSelfCluster (id addr : Z) (svcs : list (Z * Z))  (* cluster disabled: InitSelf, BuildSelfClusterTopology *)
-| OStress (a b : list member).                 (* measurement: updater alternating two views *)
+| OStress (a b : list member)                  (* measurement: updater alternating two views *)
+| OBoot (self : node) (mode : bool) (acts : list act).
+                                               (* a whole life on the scripted key space: StartMember (member)
+                                                  or StartClient, the schedule, then the life is ended *)
 
 Definition probe_types : list Z := [0; 1; 2; 3; 4].
 Definition probe_names : list Z := [0; 1; 2; 3; 4; 5; 6; 7].
@@ -439,6 +460,20 @@ Definition ext_of (ix : index) : ext :=
                  (len_opt (lst (ix_types ix) t)) (len_opt (lst (ix_working ix) t))) probe_types)
       (map (fun n => QN n (get_pid ix n) (get_work_pid ix n) (get_pid ix n)) probe_names).
 
+(* what one action of a scripted life shows *)
+Inductive bobs :=
+| XNone                                   (* not possible now / nothing to see *)
+| XAck                                    (* a pending request was there and has been served *)
+| XFail                                   (* StartMember / StartClient returned an error *)
+| XStart (regs : list (Z * node)) (wired : bool) (ms : list member) (q : answers)
+                                          (* the start call returned: registrations, requests as expected,
+                                             first publication + queries *)
+| XPub (ms : list member) (q : answers)   (* a publication + queries *)
+| XWReg (start : Z)                       (* the watch is registered; first revision it will deliver *)
+| XWComp                                  (* the watch was answered with a compaction error *)
+| XWatch (n : Z) (healthy : bool)         (* Watch calls so far, GetHealthStatus() == nil *)
+| XDown (k : Z) (cancelled : bool).       (* key deregistered, watch context cancelled *)
+
 Inductive obs :=
 | BNone                                   (* nothing to observe (no provider / empty response) *)
 | BFail                                   (* StartMember returned an error *)
@@ -451,7 +486,8 @@ Inductive obs :=
 | BDown (k : Z) (cancelled : bool)        (* key deregistered, watch context cancelled *)
 | BQuery (e : ext)
 | BNode (n : node) (ok : bool)
-| BStress (ok : bool).
+| BStress (ok : bool)
+| BBoot (xs : list bobs).                 (* one entry per action of the script *)
 
 (* NewNode: the node's own record is alive; an address that is no host:port becomes the pseudo
    address nonhost:-1 (token -1) when it is the literal "nonhost" and an error otherwise *)
@@ -464,6 +500,155 @@ Definition pstate := (option prov * list member)%type.
 
 Definition pub_of (mem : alist node) : list member * answers :=
   let ms := publish mem in (ms, query_all (make_members ms)).
+
+
+(* ------------------------------------------------------------------ the scripted life *)
+(* The key space: mutation number i (0-based) of [log] is revision i+2, the empty key space is
+   revision 1.  Positions are counted in mutations: "the key space at position r" is the one after
+   the first r mutations (revision r+1). *)
+Definition mstep (m : alist node) (mu : mut) : alist node :=
+  match mu with MPut n => aset (nid n) n m | MDel k => adel k m end.
+
+Definition snap (log : list mut) (r : nat) : alist node := fold_left mstep (firstn r log) [].
+
+Definition ev_of (mu : mut) : ev := match mu with MPut n => EPut (nid n) n | MDel k => EDel k end.
+
+(* requests in flight *)
+Inductive gst := GNone | GWait | GFlight (nodes : list node) (r : nat).
+                 (* no Get / Get waiting at the server / evaluated at position r, response in flight *)
+Inductive wst := WNone | WReq (req : option nat) | WOpen (next : nat) | WDead.
+                 (* no watch / Watch called, not registered yet (requested start position; None: "now") /
+                    registered, next event to deliver is mutation [next] / the watch loop has ended *)
+Inductive pcs := PStart | PRun | PFailed.
+                 (* the start call waits for the listing / has returned nil / has returned an error *)
+
+Record boot := Bt {
+  b_log : list mut;          (* the key space's history *)
+  b_compact : nat;           (* events of the first b_compact mutations are compacted away *)
+  b_get : gst;
+  b_watch : wst;
+  b_pc : pcs;
+  b_down : bool;             (* p.shutdown *)
+  b_mem : alist node;        (* p.members *)
+  b_seen : nat;              (* p.revision - 1: the position the member table is at *)
+  b_watches : Z;             (* Watch calls so far *)
+  b_err : bool;              (* p.clusterError != nil *)
+  b_dir : list member        (* the list last handed to the Cluster *)
+}.
+
+Definition boot0 (dir : list member) : boot := Bt [] 0 GWait WNone PStart false [] 0 0 false dir.
+
+(* StartMember: updateNodesWithSelf / StartClient: updateNodes; listAgain: the same on an EMPTY table *)
+Definition boot_listing (mode : bool) (self : node) (nodes : list node) : alist node :=
+  if mode then init_members self nodes else of_listing nodes.
+
+(* keepWatching: WithRev(p.revision+1) - the REPAIRED code (hooks/C08-fix-watch-from-listing-revision.patch).
+   [fixed = false] is the code before the repair: no start revision, the watch begins at "now".
+   (p.revision > 0 always holds here: revisions start at 1.) *)
+Definition wreq (fixed : bool) (seen : nat) : option nat := if fixed then Some seen else None.
+
+Definition bstep (fixed : bool) (self : node) (mode : bool) (s : boot) (a : act) : boot * bobs :=
+  match a with
+  | AMut m =>
+      (Bt (b_log s ++ [m]) (b_compact s) (b_get s) (b_watch s) (b_pc s) (b_down s) (b_mem s) (b_seen s)
+          (b_watches s) (b_err s) (b_dir s), XNone)
+  | AGetEval =>
+      match b_get s with
+      | GWait =>
+          let r := length (b_log s) in
+          (Bt (b_log s) (b_compact s) (GFlight (map snd (snap (b_log s) r)) r) (b_watch s) (b_pc s) (b_down s)
+              (b_mem s) (b_seen s) (b_watches s) (b_err s) (b_dir s), XAck)
+      | _ => (s, XNone)
+      end
+  | AGetResp =>
+      match b_get s with
+      | GFlight nodes r =>
+          let mem := boot_listing mode self nodes in
+          let '(ms, q) := pub_of mem in
+          match b_pc s with
+          | PStart => (* fetchNodes, updateNodes[WithSelf], publish, startWatching, registerService, startKeepAlive *)
+              (Bt (b_log s) (b_compact s) GNone (WReq (wreq fixed r)) PRun false mem r 1 false ms,
+               XStart (if mode then [(nid self, self); (nid self, self)] else []) true ms q)
+          | PRun => (* listAgain in the watch goroutine, then keepWatching: the next watch - after Shutdown on
+                       the cancelled context, i.e. a stream that is closed at once, and the loop ends *)
+              (Bt (b_log s) (b_compact s) GNone (if b_down s then WDead else WReq (wreq fixed r)) PRun (b_down s)
+                  mem r (b_watches s + 1) (b_err s) ms,
+               XPub ms q)
+          | PFailed => (s, XNone)
+          end
+      | _ => (s, XNone)
+      end
+  | AGetFail =>
+      match b_get s, b_pc s with
+      | GNone, _ => (s, XNone)
+      | _, PStart =>
+          (Bt (b_log s) (b_compact s) GNone (b_watch s) PFailed (b_down s) (b_mem s) (b_seen s) (b_watches s)
+              (b_err s) (b_dir s), XFail)
+      | _, PRun => (* listAgain failed: clusterError, pause, and - unless shut down - the listing is asked for again *)
+          (Bt (b_log s) (b_compact s) (if b_down s then GNone else GWait) (if b_down s then WDead else b_watch s)
+              PRun (b_down s) (b_mem s) (b_seen s) (b_watches s) true (b_dir s), XAck)
+      | _, PFailed => (s, XNone)
+      end
+  | AWatch =>
+      match b_watch s with
+      | WReq req =>
+          let i := match req with Some i => i | None => length (b_log s) end in
+          if Nat.ltb (S i) (b_compact s)
+          then (* compaction error: _keepWatching returns it, p.relist, the loop lists again *)
+            (Bt (b_log s) (b_compact s) GWait WNone (b_pc s) (b_down s) (b_mem s) (b_seen s) (b_watches s) true
+                (b_dir s), XWComp)
+          else
+            (Bt (b_log s) (b_compact s) (b_get s) (WOpen i) (b_pc s) (b_down s) (b_mem s) (b_seen s) (b_watches s)
+                (b_err s) (b_dir s), XWReg (Z.of_nat i + 2))
+      | _ => (s, XNone)
+      end
+  | ADeliver n =>
+      match b_watch s with
+      | WOpen i =>
+          let k := Nat.min (Z.to_nat n) (length (b_log s) - i) in
+          match k with
+          | O => (s, XNone)
+          | _ =>
+              let mem := step_batch self (b_mem s) (map ev_of (firstn k (skipn i (b_log s)))) in
+              let '(ms, q) := pub_of mem in
+              (Bt (b_log s) (b_compact s) (b_get s) (WOpen (i + k)) (b_pc s) (b_down s) mem (i + k) (b_watches s)
+                  (b_err s) ms, XPub ms q)
+          end
+      | _ => (s, XNone)
+      end
+  | AWatchFail v =>
+      match b_watch s with
+      | WOpen _ =>
+          let e := b_err s || negb (Z.eqb v 0) in
+          if b_down s
+          then (Bt (b_log s) (b_compact s) (b_get s) WDead (b_pc s) true (b_mem s) (b_seen s) (b_watches s) e
+                   (b_dir s), XWatch (b_watches s) (negb e))
+          else (Bt (b_log s) (b_compact s) (b_get s) (WReq (wreq fixed (b_seen s))) (b_pc s) false (b_mem s)
+                   (b_seen s) (b_watches s + 1) e (b_dir s), XWatch (b_watches s + 1) (negb e))
+      | _ => (s, XNone)
+      end
+  | ACompact =>
+      (Bt (b_log s) (length (b_log s)) (b_get s) (b_watch s) (b_pc s) (b_down s) (b_mem s) (b_seen s)
+          (b_watches s) (b_err s) (b_dir s), XNone)
+  | AShutdown =>
+      match b_pc s, b_down s with
+      | PRun, false =>
+          (* deregister, cancel the watch context: a watch the server has not registered yet is closed by
+             the client, a registered one stays deliverable until it ends *)
+          (Bt (b_log s) (b_compact s) (b_get s) (match b_watch s with WReq _ => WDead | w => w end) PRun true
+              (b_mem s) (b_seen s) (b_watches s) (b_err s) (b_dir s), XDown (nid self) true)
+      | _, _ => (s, XNone)
+      end
+  end.
+
+Fixpoint boot_run (fixed : bool) (self : node) (mode : bool) (s : boot) (acts : list act) : boot * list bobs :=
+  match acts with
+  | [] => (s, [])
+  | a :: r =>
+      let '(s1, x) := bstep fixed self mode s a in
+      let '(s2, xs) := boot_run fixed self mode s1 r in
+      (s2, x :: xs)
+  end.
 
 (* makeFullNameServices: services without a configuration entry are dropped; the configured
    type of a name is the one of its last entry *)
@@ -527,6 +712,11 @@ Definition step_op (s : pstate) (o : op) : pstate * obs :=
       let ms := [self_cluster_member id addr svcs] in
       ((pv, ms), BPub ms (query_all (make_members ms)))
   | OStress _ _ => (s, BStress true)
+  | OBoot self mode acts =>
+      (* a life of its own: it ends whatever provider was running, and is ended itself after the script *)
+      if Z.ltb (naddr self) (-1) then ((None, dir), BFail)
+      else let '(b, xs) := boot_run true (mk_self self) mode (boot0 dir) acts in
+           ((None, b_dir b), BBoot xs)
   end.
 
 Fixpoint run_from (s : pstate) (ops : list op) : list obs :=
